@@ -214,7 +214,9 @@ fn hash_for(ns: u64, t: u8, pl: &Placement, swarm_workers: u8) -> [u8; 20] {
     let mut h = [0u8; 20];
     // byte 0 selects the swarm worker; the remaining bytes make the torrent unique to this namespace
     let w = if t == UNKNOWN_T { (ns % swarm_workers as u64) as u8 } else { pl.torrent_worker[t as usize] % swarm_workers };
-    h[0] = w;
+    // any first byte that maps to swarm worker w (the byte also decides nothing else - a tracker that reduces it modulo
+    // the wrong worker count must not get away with small values): w, w + n, w + 2n, ... chosen by the namespace
+    h[0] = w + swarm_workers * (ns % (256 / swarm_workers as u64)) as u8;
     h[1..9].copy_from_slice(&ns.to_be_bytes());
     h[9] = t;
     for (i, x) in h.iter_mut().enumerate().skip(10) {
@@ -671,6 +673,15 @@ pub fn main(args: &Args) -> ! {
                     }
                     let ns = NS.fetch_add(1, Ordering::Relaxed);
                     let o = replay(&trk, &params, path, ns, pl);
+                    // a tracker whose run() has returned is not a tracker that is hard to reach
+                    if o.violation.is_some() {
+                        if let Some(line) = trk.child.line_with_wait("RUN-RETURNED", 300) {
+                            if stopped.swap(1, Ordering::Relaxed) == 0 {
+                                viols.lock().unwrap().push(("http/tracker-exited".to_string(), format!("{}: the tracker's run() returned while requests were being served ({}); last path: {:?}, outcome {:?}", trk.label, line, path, o.violation), json!({"path": path, "socket_workers": sw, "swarm_workers": wm, "keep_alive": ka, "max_scrape": ms, "conn_worker": pl.conn_worker, "torrent_worker": pl.torrent_worker})));
+                            }
+                            return (ReplayOut { requests: o.requests, violation: None }, (*path).clone(), pl.clone());
+                        }
+                    }
                     match &o.violation {
                         Some((sig, _)) if sig.starts_with("http/no-reply") => {
                             if unanswered.fetch_add(1, Ordering::Relaxed) >= 8 && stopped.load(Ordering::Relaxed) == 0 {
